@@ -373,23 +373,26 @@ Section Top.
   Proof.
     unfold finish. destruct (has_attrs req); [|reflexivity].
     destruct (is_raw_root t); [|reflexivity].
-    destruct (f_raw_root_meta fl); [reflexivity|]. destruct t; reflexivity.
+    destruct (f_raw_root_meta fl); [reflexivity|]. cbn. apply app_nil_r.
   Qed.
 
   Lemma finish_sc fl req (t : tree D) : sc t -> sc (fst (finish fl req t)).
   Proof.
     intros H. unfold finish. destruct (has_attrs req); [|exact H].
     destruct (is_raw_root t); [|exact H].
-    destruct (f_raw_root_meta fl); [exact H|]. destruct t; [|exact H].
-    inversion H; subst. constructor.
+    destruct (f_raw_root_meta fl); [exact H|]. cbn [fst].
+    apply sizes_consistent_mk_node. constructor; [exact H | constructor].
   Qed.
 
-  Lemma finish_bal fl req h (t : tree D) : bal_ok w h t = true -> bal_ok w h (fst (finish fl req t)) = true.
+  Lemma finish_bal (Hw : (1 <= w)%nat) fl req h (t : tree D) :
+    bal_ok w h t = true -> exists h', bal_ok w h' (fst (finish fl req t)) = true.
   Proof.
-    intros H. unfold finish. destruct (has_attrs req); [|exact H].
-    destruct (is_raw_root t); [|exact H].
-    destruct (f_raw_root_meta fl); [exact H|]. destruct t; [|exact H].
-    destruct h; cbn in *; [reflexivity | discriminate].
+    intros H. unfold finish. destruct (has_attrs req); [|exists h; exact H].
+    destruct (is_raw_root t) eqn:Er; [|exists h; exact H].
+    destruct (f_raw_root_meta fl); [exists h; exact H|].
+    destruct t as [k rs d|]; [|discriminate Er].
+    destruct h; [|discriminate H]. exists 1%nat. unfold mk_node. cbn.
+    destruct w; [lia | reflexivity].
   Qed.
 
   Lemma finish_not_raw fl req (t : tree D) : is_raw_root t = false -> finish fl req t = (t, expected_meta req).
@@ -469,10 +472,10 @@ Section Top.
     layout fl Balanced raw req cs = Some (t, m) ->
     exists h, bal_ok w h t = true /\ uniform h t = true /\ max_links w t = true /\ height t = h.
   Proof.
-    intros H. destruct (layout_inv Hw _ _ _ _ _ _ _ H) as (t0 & Hf & _ & _ & (h & Hh)).
-    exists h. assert (Hb : bal_ok w h t = true).
-    { replace t with (fst (finish fl req t0)) by (rewrite <- Hf; reflexivity). apply finish_bal, Hh. }
-    split; [exact Hb|]. apply (bal_ok_uniform w Hw h t Hb).
+    intros H. destruct (layout_inv Hw _ _ _ _ _ _ _ H) as (t0 & Hf & _ & _ & (h0 & Hh)).
+    destruct (finish_bal Hw fl req h0 t0 Hh) as [h Hb].
+    replace (fst (finish fl req t0)) with t in Hb by (rewrite <- Hf; reflexivity).
+    exists h. split; [exact Hb|]. apply (bal_ok_uniform w Hw h t Hb).
   Qed.
 
   Corollary layout_bal_shape_b (Hw : (1 <= w)%nat) fl raw req cs t m :
